@@ -1479,7 +1479,7 @@ impl Property for C19 {
         out
     }
     fn rule(&self) -> String {
-        "Three case kinds per 16 runs: 8 inline, 7 streams (every other one under a crash/checkpoint/restore schedule), 1 limit. Inline: 1-6 files forming a DAG (depth <= 6, with/without final newline, empty files, files ending inside a group or a taken conditional, comment-terminated and blank lines, missing files, unreadable files at the k-th open), \\input at any position of a line terminated by space / \\relax / end of line / with extension, \\endinput at any position; the program is executed with the files and again with the files' lines standing in place under TeX's rule; per main line, token output and error kind/title must agree. Streams: 1-4 files (0-5 lines over a vocabulary with braces spanning lines, unmatched braces, blanks, comments), 2-31 ops among \\openin / \\read (to control sequences and an active character, stream numbers incl. -1, 16, 99) / \\closein / { / } / a catcode toggle, 0-7 terminal lines, injected open failures and terminal EIO/EINTR; after every op the \\ifeof vector of all 16 streams, the number of terminal lines consumed and the body of the target are compared with an independent line-level model of TeX's \\read. Limit: a self-including file must end in the structured 'too many input levels' error at depth 98..102; chains of <= 90 files must succeed. Non-trivial = (inline) at least one file was really inlined; (streams) at least one \\openin and one \\read; (limit) always. Distinct = distinct FNV hash of the serialised case.".into()
+        "Three case kinds per 16 runs: 8 inline, 7 streams (every other one under a crash/checkpoint/restore schedule), 1 limit. Inline: 1-6 files forming a DAG (depth <= 6, with/without final newline, empty files, files ending inside a group or a taken conditional, comment-terminated and blank lines, missing files, unreadable files at the k-th open), \\input at any position of a line terminated by space / \\relax / end of line / with extension, \\endinput at any position; the program is executed with the files and again with the files' lines standing in place under TeX's rule; per main line, token output and error kind/title must agree. Streams: 1-6 files (0-5 lines over a 46-entry vocabulary with braces spanning lines, unmatched braces, blanks, tabs, CR/CRLF, comments and characters that only Unicode calls white space; one case in eight has a 9-65-line file; one in four has files that share a stem and differ in the extension), 2-31 (+1.5 x long-file lines) ops among \\openin / \\read (to control sequences and an active character, stream numbers incl. -1, 16, 99) / \\closein / { / } / a catcode toggle / an interaction-mode switch (the terminal cannot be read in nonstop and batch mode) / a file replaced on disk between two operations (open streams keep what they opened), 0-7 terminal lines, injected open failures and terminal EIO/EINTR; after every op the \\ifeof vector of all 16 streams, the number of terminal lines consumed and the body of the target are compared with an independent line-level model of TeX's \\read. Limit: a self-including file must end in a structured error at depth 98..102 and chains of <= 99 files must succeed, in three shapes each (the \\input followed by more material; last on the last line; last in a file without final newline). Non-trivial = (inline) at least one file was really inlined; (streams) at least one \\openin and one \\read; (limit) always. Distinct = distinct FNV hash of the serialised case.".into()
     }
     fn assumptions(&self) -> Vec<String> {
         vec![
